@@ -271,6 +271,87 @@ def run(ctx, build):
                             violate('float64_reference_values', 'reduced_side_values_not_the_original_unit_values',
                                     '%s: %s instead of %s | %s' % (lab, [float(x) for x in vv[:, j]][:4], [float(orig[int(k0)]) for k0 in ii[:, j]][:4], desc), desc)
                 del main.parent[nm.parent.name.split('/')[-1]]
+    # ---- designed (oracle only): (a) complex elements -- sum / mean / std keep both parts; (b) the same reduction asked for again
+    # after the source was overwritten in place -- what is returned and written is the reduction of the source as it is NOW
+    def same_values(a, b):
+        a, b = np.asarray(a).ravel(), np.asarray(b).ravel()
+        if a.size != b.size:
+            return False
+        key = lambda z: (round(float(np.real(z)), 6), round(float(np.imag(z)), 6))
+        return np.allclose(np.array(sorted(a, key=key)), np.array(sorted(b, key=key)), rtol=1e-9, atol=1e-9)
+    hist['complex_reductions'] = 0
+    hist['repeated_after_source_change'] = 0
+    lay = gen.Layout([3, 2], [1, 0], [2, 2], [0, 1], dtype='c16')
+    if os.path.exists(path):
+        os.remove(path)
+    with h5py.File(path, 'w') as f:
+        main = gen.write_layout(f, lay)
+        labels = lay.pos_labels + lay.spec_labels
+        ids_nd = gc.expected_nd(lay).astype(np.float64)
+        cexp = ids_nd + 1j * (ids_nd + 0.5)
+        with common.quiet():
+            u = usid.USIDataset(main)
+        for dims in ([lay.pos_labels[0]], [lay.spec_labels[1]], [lay.pos_labels[1], lay.spec_labels[0]], list(lay.spec_labels)):
+            for name, dfn, nfn in (('sum', da.sum, np.sum), ('mean', da.mean, np.mean), ('std', da.std, np.std)):
+                hist['complex_reductions'] += 1
+                desc = {'layout': lay.describe(), 'dims': dims, 'function': name, 'to_hdf5': True, 'elements': 'complex128'}
+                want = nfn(cexp, axis=tuple(labels.index(d) for d in dims))
+                try:
+                    with common.quiet():
+                        red, new = u.reduce(dims, ufunc=dfn, to_hdf5=True)
+                        got = np.asarray(red.compute())
+                except Exception as e:
+                    try:
+                        with common.quiet():
+                            red, _ = u.reduce(dims, ufunc=dfn, to_hdf5=False)
+                            got = np.asarray(red.compute())
+                        new = None
+                    except Exception as e2:
+                        violate('complex_elements', 'in_memory_reduction_raises', '%r %s' % (e2, desc), desc)
+                        continue
+                if got.shape != want.shape or not np.allclose(got, want, rtol=1e-9, atol=1e-9):
+                    violate('complex_elements', 'returned_array_differs_from_axis_reduction', '%s vs %s | %s' % (got.ravel()[:3], want.ravel()[:3], desc), desc)
+                if new is not None:
+                    nm = f[new.name]
+                    if not same_values(nm[()], want):
+                        violate('complex_elements', 'file_element_is_not_the_reduction_of_its_fibre', '%s vs %s | %s' % (nm[()].ravel()[:3], want.ravel()[:3], desc), desc)
+                    del main.parent[nm.parent.name.split('/')[-1]]
+    lay = gen.Layout([3, 2], [0, 1], [2, 3], [0, 1], dtype='f8')
+    if os.path.exists(path):
+        os.remove(path)
+    with h5py.File(path, 'w') as f:
+        main = gen.write_layout(f, lay)
+        labels = lay.pos_labels + lay.spec_labels
+        for dims in ([lay.pos_labels[0]], [lay.spec_labels[0], lay.pos_labels[1]]):
+            axes = tuple(labels.index(d) for d in dims)
+            for step in range(3):
+                hist['repeated_after_source_change'] += 1
+                desc = {'layout': lay.describe(), 'dims': dims, 'function': 'sum', 'to_hdf5': True,
+                        'history': 'call %d of the same reduction; the source was overwritten in place before each later call; earlier results are still in the file' % (step + 1)}
+                if step:
+                    main[...] = main[()] * 2.0 + step
+                cur = main[()]
+                nd_now = np.zeros(lay.pos_sizes + lay.spec_sizes)
+                ids_nd = gc.expected_nd(lay)
+                for idx in np.ndindex(*ids_nd.shape):
+                    nd_now[idx] = cur[ids_nd[idx] // lay.M, ids_nd[idx] % lay.M]
+                want = np.sum(nd_now, axis=axes)
+                try:
+                    with common.quiet():
+                        u = usid.USIDataset(main)
+                        red, new = u.reduce(dims, ufunc=da.sum, to_hdf5=True)
+                        got = np.asarray(red.compute())
+                except Exception as e:
+                    continue                                     # raising instead of writing is allowed
+                if got.shape != want.shape or not np.allclose(got, want):
+                    violate('repeated_call', 'returned_array_differs_from_axis_reduction', str(desc), desc)
+                if not same_values(f[new.name][()], want):
+                    violate('repeated_call', 'file_element_is_not_the_reduction_of_its_fibre',
+                            'written %s, reduction of the current source %s | %s' % (f[new.name][()].ravel()[:4], want.ravel()[:4], desc), desc)
+            for k0 in list(main.parent.keys()):
+                if '-Reduce_' in k0:
+                    del main.parent[k0]
+            main[...] = lay.main_data()
     bad, err = common.coq_eval_cases(ctx, HEADER, cases, 'check12', case_type='case12', per_file=40)
     bad2, err2 = common.coq_eval_cases(ctx, HEADER, vcases, 'check12v', case_type='case12v', per_file=150, tag='vals')
     bad3, err3 = common.coq_eval_cases(ctx, HEADER, mcases, 'check12m', case_type='case12m', per_file=40, tag='moments')
